@@ -200,6 +200,9 @@ var nextObjID = 0
 var nextStateID = 0
 
 func (st *State) clone() *State {
+	// both copies get a fresh ownership epoch: objects alive now are shared and copied on write
+	nextStateID++
+	st.id = nextStateID
 	nextStateID++
 	n := &State{
 		id:       nextStateID,
